@@ -79,6 +79,20 @@ CLAIMED['C09'] = dict(
     note=NOTE_COMMON + 'net_transform plumbing (wire replacement, temp naming) is exercised, not modelled.',
     technique='Lean 4 proof (decide over Bool for gate rules; induction for concat/select/tree) + netlist evaluation in the Lean Spec model')
 
+CLAIMED['C10'] = dict(
+    text='Lean theorems over sanity_check_net as regenerated from core.py on every run (31 rules): every listed '
+         'net-level fault class (foreign wire, Input/Const destination, Output argument, illegal op, wrong arity for '
+         'every op class, every bitwidth rule, bad/missing parameters) is rejected wherever the net sits, API-shaped '
+         'nets are not rejected; block-level model of sanity_check + acyclicity rejects duplicate names and double '
+         'drivers; the dependency-order checker is proved sound (isTopo_sound, order-independence of evaluation in '
+         'C01). Correspondence: 11 fault classes injected into live blocks, sanity_check and all three simulator '
+         'constructors must raise, the Lean model must classify every good and faulty block identically; real Block '
+         'iteration under native and hooked tie-breaks is checked to be exactly-once and a dependency order. PARTIAL: '
+         'a theorem about a model of the Block.__iter__ worklist for every pick function is not yet proved.',
+    design='4 C10',
+    note=NOTE_COMMON + 'memory-sync walk and wirevector_by_name consistency are modelled only as far as the generators reach.',
+    technique='Lean 4 proof over translator-regenerated sanity rules + fault enumeration as correspondence')
+
 NOT_YET = {}
 
 
